@@ -398,14 +398,12 @@ Definition apply_op (t : cls -> clsinfo) (s : snapshot) (o : op) : option snapsh
            | None => None
            end
   | OInsertDeriv k d => insert_deriv t s k d
-  | OAsReadonly =>
-      if c_ro (s_core s) then Some s
-      else Some (mksnap (freeze (s_core s))
-                        (map (fun kd => (fst kd, mkdsnap (if c_ro (d_core (snd kd)) then d_core (snd kd)
-                                                           else freeze (d_core (snd kd)))
-                                                          (d_has_derivs (snd kd)) (d_attr_same (snd kd))
-                                                          (d_dattrs (snd kd)))) (s_derivs s))
-                        (s_dattrs s))
+  | OAsReadonly =>       (* freezes the arrays of the object and of every derivative, always *)
+      Some (mksnap (freeze (s_core s))
+                   (map (fun kd => (fst kd, mkdsnap (freeze (d_core (snd kd)))
+                                                     (d_has_derivs (snd kd)) (d_attr_same (snd kd))
+                                                     (d_dattrs (snd kd)))) (s_derivs s))
+                   (s_dattrs s))
   | OCopy recursive =>
       if recursive
       then insert_all t (bare (thaw_copy (s_core s)))
